@@ -140,22 +140,23 @@ def corpus_programs():
     return c01.corpus_programs(), own
 
 
-def check_fragment(chk, progs, tag):
-    """programs rewritten into the fragment of the theorem mech_refines_sem_isolated_partial: the statement of the theorem is
-    evaluated on them (wf_prog p -> M p = S p) and they are run on the implementation like every other program"""
+def check_fragment(chk, progs, tag, name, wf_fn, mode="isolated", keep=()):
+    """programs rewritten into the fragment of a refinement theorem (wf_fn = its decidable premise): the statement of the theorem
+    is evaluated on them (wf_fn p -> M p = S p) and they are run on the implementation like every other program.
+    keep: features NOT rewritten away (the widened fragments)"""
     import c01m_util as U
-    frag = [U.fragmentize(p) for p in progs]
+    frag = [U.fragmentize(p, mode, keep) for p in progs]
     pterms = [G.c_prog(p) for p in frag]
-    notwf = set(coq_eval(tag + "w", "prog", "wf_prog", pterms))
-    bad = coq_eval(tag + "x", "prog", "check_wf_ms", pterms)
-    chk.dist["fragment:programs"] += len(frag)
-    chk.dist["fragment:wf_prog"] += len(frag) - len(notwf)
-    chk.dist["fragment:wf-and-M-differs-from-S"] += len(bad)
+    notwf = set(coq_eval(tag + "w", "prog", wf_fn, pterms))
+    bad = coq_eval(tag + "x", "prog", "(fun p => negb (%s p) || check_ms p)" % wf_fn, pterms)
+    chk.dist["fragment/%s:programs" % name] += len(frag)
+    chk.dist["fragment/%s:%s" % (name, wf_fn)] += len(frag) - len(notwf)
+    chk.dist["fragment/%s:wf-and-M-differs-from-S" % name] += len(bad)
     for i in bad[:3]:
-        chk.disagree("a program satisfying wf_prog on which M and S differ (contradicts the theorem: broken build?)",
+        chk.disagree("a program satisfying %s on which M and S differ (contradicts the theorem: broken build?)" % wf_fn,
                      dict(describe(frag[i]), program=frag[i]))
     wf = [p for i, p in enumerate(frag) if i not in notwf]
-    check_batch(chk, wf, tag, "fragment/isolated", True)
+    check_batch(chk, wf, tag, "fragment/" + name, True)
     return len(wf)
 
 
@@ -187,7 +188,8 @@ def run(tier, seed, report_as=None):
         check_batch(chk, progs, tag, key, must)
         if tag in ("isod", "djad"):
             keep.extend(progs[: n // 2])
-    nwf = check_fragment(chk, keep, "frag")
+    nwf = check_fragment(chk, keep, "frag", "isolated", "wf_prog")
+    nwf += check_fragment(chk, keep, "frdj", "django", "wf_prog_django", mode="django")
     chk.assumptions = [
         "programs are drawn from the calculus of coq/Core/Syntax.v by harness/genprog.py (shared with C01/C03/C05); templates emit text "
         "without HTML elements; <!-- _RENDERED --> markers are stripped; expression evaluation of Django's engine (variables, dot lookup, "
@@ -202,12 +204,12 @@ def run(tier, seed, report_as=None):
     return chk.finish(
         rule="genprog programs, %d per batch, small ones first: distinct names isolated / django / django with `only`; colliding names "
              "(collide=0.35) isolated / django; provide/inject in every second program, plus two provide-heavy half batches; plus C01's corpus, C01M's witnesses, and %d programs "
-             "rewritten into the fragment of the refinement theorem (wf_prog true). implementation-vs-M must agree in EVERY batch; M-vs-S must "
+             "rewritten into the fragments of the refinement theorems (wf_prog / wf_prog_django true). implementation-vs-M must agree in EVERY batch; M-vs-S must "
              "agree in the distinct-name isolated, django (no `only`) and fragment batches and is counted elsewhere. Non-trivial = has a fill, "
              "a slot and a nested component. Distinct = distinct program text." % (n, nwf),
         explanation="theorems of Props/C01M.v re-checked (ctx_restored for all programs and both modes; component_context_cache privacy; M = S "
-                    "for the isolated fragment, no bounds); M evaluated by vm_compute inside Coq on every program and compared with the "
-                    "implementation's output and with S; wf_prog p -> M p = S p also evaluated as a test on the fragment batch.",
+                    "for the isolated and django fragments, no bounds); M evaluated by vm_compute inside Coq on every program and compared with the "
+                    "implementation's output and with S; wf p -> M p = S p also evaluated as a test on the fragment batches.",
         extra_trusted=["modelled, not verified: Django's template engine for text/variables/if/for/with; Python list insert/pop semantics "
                        "(Core/CtxStack.v py_insertZ/py_popZ); deferred rendering abstracted to in-place rendering (C14 PostRender)",
                        "harness/c01m_util.py fragmentize (only produces inputs; wf_prog is decided inside Coq)"])
